@@ -474,6 +474,24 @@ pub fn drive_exh(a: &Args, out: &mut Out) {
                 }
                 let c = HCase::simple(alg, x, y);
                 run_case(&c, out);
+                // the same pair as a sub-range of padded sequences (different range starts on the
+                // two sides) under the lookup that panics outside the range, up to maxlen - 1
+                if x.len() < maxlen && y.len() < maxlen {
+                    let mut po = vec![7u32];
+                    po.extend_from_slice(x);
+                    po.push(8);
+                    let mut pn = vec![8u32, 7];
+                    pn.extend_from_slice(y);
+                    pn.push(7);
+                    let mut c2 = HCase::simple(alg, &po, &pn);
+                    c2.os = 1;
+                    c2.oe = 1 + x.len();
+                    c2.ns = 2;
+                    c2.ne = 2 + y.len();
+                    c2.index = "window";
+                    c2.entry = "module";
+                    run_case(&c2, out);
+                }
             }
         }
     }
